@@ -355,6 +355,7 @@ type editStats struct {
 	frag, dup, swap, omit, reseg int
 	fragReorder                  int
 	synackLost                   int
+	midstream                    int
 	crossDirSwap                 int
 }
 
@@ -598,6 +599,21 @@ func genConversation(rt *rapid.T, c *harness.Case) (*conv, fileSpec, editStats) 
 		cv.wire = kept
 		st.synackLost++
 		c.Stepf("edit lose SYN+ACK of c%d", ci)
+	} else if rapid.IntRange(0, 9).Draw(rt, "midstream") == 5 {
+		// the capture starts in the middle of one connection: its whole handshake
+		// is missing (seed C19-3: a direction whose first captured segments are
+		// swapped lost its first segment)
+		ci := rapid.IntRange(0, nconn-1).Draw(rt, "midstream_conn")
+		var kept []*wirePkt
+		for _, w := range cv.wire {
+			if s := cv.segs[w.Seg]; s.Conn == ci && (s.Kind == "syn" || s.Kind == "synack" || (s.Kind == "ack" && s.Pinned)) {
+				continue
+			}
+			kept = append(kept, w)
+		}
+		cv.wire = kept
+		st.midstream++
+		c.Stepf("edit lose the handshake of c%d", ci)
 	}
 	return cv, f, st
 }
@@ -611,6 +627,15 @@ func (cv *conv) beforeRst(conn, at int) int {
 		}
 	}
 	return at
+}
+
+func midstreamAny(ex expectation) bool {
+	for _, ce := range ex.Conns {
+		if ce.Dir[0].Midstream {
+			return true
+		}
+	}
+	return false
 }
 
 func hexShort(b []byte) string {
@@ -653,7 +678,18 @@ func compare(c *harness.Case, ex expectation, obs *observation, disordered bool)
 }
 
 func diffObs(ex expectation, obs *observation, disordered bool) (fails []failure, labels []string) {
-	if len(obs.Conns) != len(ex.Conns) {
+	optional := 0
+	for _, ce := range ex.Conns {
+		if ce.Optional {
+			optional++
+		}
+	}
+	if len(obs.Conns) > len(ex.Conns) || len(obs.Conns) < len(ex.Conns)-optional {
+		if ex.FragOpts && midstreamAny(ex) {
+			// without a SYN the connection only appears with its first datagram; if
+			// that one is a fragmented datagram with IPv4 options it never does
+			return []failure{{2, "frag-ip-options:connection-count", fmt.Sprintf("fq reports %d TCP connections, the capture holds %d", len(obs.Conns), len(ex.Conns))}}, nil
+		}
 		return []failure{{0, "connection-count", fmt.Sprintf("fq reports %d TCP connections, the capture holds %d", len(obs.Conns), len(ex.Conns))}}, nil
 	}
 	// connections are matched by their address/port 4-tuple (the order of
@@ -671,6 +707,9 @@ func diffObs(ex expectation, obs *observation, disordered bool) (fails []failure
 	}
 	for i, ce := range ex.Conns {
 		j, ok := byKey[pairKey(epKey(ce.Dir[0].IP, ce.Dir[0].Port), epKey(ce.Dir[1].IP, ce.Dir[1].Port))]
+		if !ok && ce.Optional {
+			continue
+		}
 		if !ok {
 			fails = append(fails, failure{0, "connection-missing", fmt.Sprintf("no reported connection is between %s:%d and %s:%d (model c%d)", ce.Dir[0].IP, ce.Dir[0].Port, ce.Dir[1].IP, ce.Dir[1].Port, ce.Conn)})
 			continue
@@ -681,6 +720,10 @@ func diffObs(ex expectation, obs *observation, disordered bool) (fails []failure
 		for d := 0; d < 2; d++ {
 			e := ce.Dir[d]
 			o := obs.Conns[j][d]
+			if e.Midstream && (o.IP != e.IP || o.Port != e.Port) {
+				// roles are not asserted without a handshake: match by endpoint
+				o = obs.Conns[j][1-d]
+			}
 			who := fmt.Sprintf("connection %d (model c%d) %s", i, ce.Conn, []string{"client", "server"}[d])
 			// a direction whose sequence numbers pass 2^32 while its packets are
 			// not simply in order runs into the dependency's sequence arithmetic
@@ -696,6 +739,13 @@ func diffObs(ex expectation, obs *observation, disordered bool) (fails []failure
 				// sequence numbers pass 2^32 while the packets are not simply in order
 				q, rank = "seq-wrap:", 2
 				who += " [sequence numbers pass 2^32]"
+			case e.MidFinFirst:
+				q, rank = "midstream-fin-before-data:", 2
+				who += " [no handshake, FIN arrives before data of its direction]"
+			case e.Midstream && e.Wrap:
+				// no SYN and sequence numbers that pass 2^32
+				q, rank = "seq-wrap:", 2
+				who += " [sequence numbers pass 2^32, no handshake]"
 			case e.PeerNoStart:
 				q, rank = "synack-lost:", 2
 				who += " [the SYN+ACK of the peer is not in the capture]"
@@ -824,7 +874,7 @@ func runCase(rt *rapid.T, c *harness.Case, jq *fqx.Interp) {
 	for _, kn := range []struct {
 		k string
 		n int
-	}{{"edit-frag", st.frag}, {"edit-dup", st.dup}, {"edit-swap-same-conn", st.swap}, {"edit-swap-cross-dir", st.crossDirSwap}, {"edit-omit", st.omit}, {"edit-reseg", st.reseg}, {"edit-frag-reordered", st.fragReorder}, {"edit-synack-lost", st.synackLost}} {
+	}{{"edit-frag", st.frag}, {"edit-dup", st.dup}, {"edit-swap-same-conn", st.swap}, {"edit-swap-cross-dir", st.crossDirSwap}, {"edit-omit", st.omit}, {"edit-reseg", st.reseg}, {"edit-frag-reordered", st.fragReorder}, {"edit-synack-lost", st.synackLost}, {"edit-handshake-lost", st.midstream}} {
 		k, n := kn.k, kn.n
 		if n > 0 {
 			c.Label(k)
